@@ -85,3 +85,9 @@ claim('C15', 'model evaluation of the four point-defect generators and the dispa
       'Decides structural necessary conditions: atom counts, surviving atoms unchanged and in order with defect atoms last, old_id created from the index list or carried over (maps compose), defect-atom position/type/property values '
       '(box-relative positions through the box, box-relative dumbbell vector through the cell vectors only), selection by index / negative index / Cartesian / box-relative position agreeing, every documented refusal, input untouched and result built from copies, '
       'dispatcher forwarding. Which atom a numerical distance test selects for a given tolerance is not decided. One defect found and fixed (dumbbell scale=True).', 'DESIGN.md §6 C15')
+
+claim('C12', 'evaluation of the isotropic closed forms in three (m,n,xi) frames with CAS differentiation; evaluation of the Stroh sums on generic symbolic eigen-data as polynomial identities; recording-stub evaluation of the orientation handling and solver dispatch',
+      'Decides structural necessary conditions: isotropic strain = symmetric gradient of displacement (nine Cartesian components, three frames), Hooke\'s law, zero divergence, 1/r homogeneity, the theta-coefficient b/2pi (jump = Burgers vector), K tensor, '
+      'nu from (K, mu), the theta branch table; for the anisotropic solver strain = sym grad u and stress = C:grad u for arbitrary eigen-data, eta, K = i sum(+-k L L), the sextic matrix blocks, A/L split, normalisation, and the four orthogonality relations '
+      'guarding the stored solution (which give jump = b); the Burgers vector and the constants are rotated by the same matrix, four orientation routes, sibling transform function, unit/perpendicular m,n, relative round-off; fallback only on ValueError with identical arguments. '
+      'Accuracy of the numerical eigen-solution, positive-definiteness of K and the isotropic limit are not decided. One defect found and fixed (n never checked for unit length).', 'DESIGN.md §6 C12')
